@@ -80,7 +80,10 @@ Components(c, b) ==        \* S, L (list of r matrices), M (list of r matrices) 
         THEN LET B == MatC(c.seed, sb, 1, c.n, 2)
                  Cm == MatC(c.seed, sb, 2, c.n, 3)
                  Sh == AddM(MatC(c.seed, sb, 3, c.n, 1), AdjM(MatC(c.seed, sb, 3, c.n, 1)))
-             IN  [S |-> MulI(Sh), L |-> <<MulI(B), MulI(AdjM(B))>>, M |-> <<Cm, AdjM(Cm)>>]
+                 \* imag: the Hermitian, genuinely complex components themselves (imaginary-time evolution exp(h H) with a real
+                 \* step: every local generator is exactly Hermitian), otherwise -i times them (skew-Hermitian, norm preserving)
+             IN  IF "imag" \in DOMAIN c /\ c.imag THEN [S |-> Sh, L |-> <<B, AdjM(B)>>, M |-> <<Cm, AdjM(Cm)>>]
+                 ELSE [S |-> MulI(Sh), L |-> <<MulI(B), MulI(AdjM(B))>>, M |-> <<Cm, AdjM(Cm)>>]
         ELSE [S |-> Mat(c.seed, sl, 3, c.n, 1),
               L |-> [k \in 1..c.r |-> Mat(c.seed, sl, k, c.n, 2)],
               M |-> [k \in 1..c.r |-> Mat(c.seed, sb, k, c.n, 3)]]
@@ -94,6 +97,8 @@ Configs ==
         d \in 2..(IF Level = 1 THEN 3 ELSE 5), n \in {2} \cup (IF Level = 1 THEN {} ELSE {3}), r \in 1..2,
         hom \in BOOLEAN, herm \in BOOLEAN, seed \in {1, 2}, xr \in BOOLEAN} :
             (~c.herm => c.xr) /\ (c.d = 5 => c.n = 2 /\ c.r = 1 /\ c.seed = 1)}
+    \cup {[d |-> d, n |-> 2, r |-> 2, hom |-> hom, herm |-> TRUE, seed |-> seed, xr |-> FALSE, imag |-> TRUE] :
+            d \in {3, 4}, hom \in BOOLEAN, seed \in {1, 2}}
     \cup {[d |-> d, n |-> 2, r |-> 2, hom |-> FALSE, herm |-> FALSE, seed |-> seed, xr |-> TRUE, share |-> TRUE] :
             d \in {4, 5}, seed \in {1, 2}}
     \cup (IF Level = 1 THEN {[d |-> 4, n |-> 2, r |-> 1, hom |-> FALSE, herm |-> TRUE, seed |-> 1, xr |-> FALSE],
@@ -110,7 +115,7 @@ Next == Build
 Spec == Init /\ [][Next]_vars
 
 \* skew-Hermitian components where requested
-SkewOK == (out # <<>> /\ cfg.herm) =>
+SkewOK == (out # <<>> /\ cfg.herm /\ ~("imag" \in DOMAIN cfg /\ cfg.imag)) =>
     \A b \in 1..cfg.d : LET S == out[1].comp[b].S IN \A i \in 1..cfg.n, j \in 1..cfg.n : S[i][j] = CNeg(CConj(S[j][i]))
 Inv == WordsOK /\ SkewOK
 
